@@ -27,6 +27,8 @@ def run(ck, tier):
     _acc2.run2(ck, F, 'C01')
     from . import relations as _rel
     _rel.run(ck, F, 'C01')
+    from . import guards as _grd
+    _grd.run(ck, F, 'C01')
     from . import c03x
     c03x.run(ck, F, rule="C01.view-rebase-guarded")
     from . import accum as _acc
